@@ -39,6 +39,13 @@ def form_py(f):
     if t == 'int':
         return f[1]
     if t == 'setting':
+        # the same text through the other constructor forms too (deterministic in the text): list of pieces, copy
+        k = (len(f[1]) + f[1].count(';')) % 3
+        if k == 1 and ';' in f[1]:
+            return AnsiSetting(f[1].split(';'))
+        if k == 2:
+            a = AnsiSetting(f[1]); a.valid
+            return AnsiSetting(a)
         return AnsiSetting(f[1])
     if t == 'list' or t == 'tuple':
         l = []
